@@ -37,6 +37,21 @@ def oracle(out, rng, n, sweep):
         if (m.priority, m.parameter_group_number, m.source_address) != (p, g, s):
             bad('id-compose-parse', (p, g, s), (m.priority, m.parameter_group_number, m.source_address), (p, g, s))
         out.add_case(('idc', p, g, s), True)
+    # the same laws on objects that are USED AGAIN (one MessageId / Name parsed, read, given a second value, read again): what an
+    # object composes must follow its current fields, whatever it composed or parsed before
+    reuse = ids[:2000] if not sweep else ids[:40000]
+    for i, j in zip(reuse, reuse[1:]):
+        m = MessageId(can_id=i)
+        _ = m.can_id
+        m.can_id = j
+        f = (m.priority, m.parameter_group_number, m.source_address)
+        if f != R.ref_parse_id(j) or m.can_id != j:
+            bad('id-reused-object-parse-compose', (i, j), (f, m.can_id), (R.ref_parse_id(j), j))
+        m.priority = (f[0] + 1) % 8
+        m.source_address = (f[2] + 1) % 256
+        want = R.ref_can_id((f[0] + 1) % 8, f[1], (f[2] + 1) % 256)
+        if m.can_id != want:
+            bad('id-reused-object-field-change', (j,), m.can_id, want)
     pgns = range(2 ** 18) if sweep else [t[0] for t in items.tuples(rng, [18], n)]
     for g in pgns:
         pg = PGN()
@@ -74,6 +89,17 @@ def oracle(out, rng, n, sweep):
         if nf.value != ev or {f: getattr(nf, f) for f, _, _ in R.NAME_LAYOUT} != exp:
             bad('name-from-fields', v, nf.value, ev)
         out.add_case(('name', v), True)
+    for v, w in list(zip(vals, vals[1:]))[:2000 if not sweep else 40000]:
+        # (the value and bytes setters take all 64 bits as they are; only construction clears the reserved bit)
+        nm = Name(value=v)
+        _ = (nm.value, list(nm.bytes))
+        nm.value = w
+        got = {f: getattr(nm, f) for f, _, _ in R.NAME_LAYOUT}
+        if got != R.ref_name_fields(w) or nm.value != w or list(nm.bytes) != R.ref_le_bytes(w, 8):
+            bad('name-reused-object', (v, w), (nm.value, got), (w, R.ref_name_fields(w)))
+        nm.bytes = R.ref_le_bytes(v, 8)
+        if nm.value != v or {f: getattr(nm, f) for f, _, _ in R.NAME_LAYOUT} != R.ref_name_fields(v):
+            bad('name-reused-object-from-bytes', (w, v), nm.value, v)
     return viol
 
 
